@@ -4,14 +4,14 @@ PROP = dict(
             dict(name="locker-collector-random", go_test="TestC13", runner="C13",
                  env=dict(quick=dict(VERIF_CASES=300), thorough=dict(VERIF_CASES=12000))),
         ],
-        rule="cases 0-2 = directed witnesses on the real keepers (generation-2 liquidation + full dutch bid; generation-2 surplus auction start/bid/close; "
+        rule="cases 0-2 = directed witnesses on the real keepers (case 0: generation-2 liquidations settled by a full dutch bid - two through MsgLiquidateInternalKeeper in apps whose KeeeperIncentive is 10 % / 2.5 % (the penalty is split keeper / collector and only the collector share may be booked), one automatic, one MsgLiquidateExternalKeeper (collector untouched); generation-2 surplus auction start/bid/close; "
              "generation-2 debt auction start/bid/close); other cases = (2 apps x 3 assets, 3 users with random balances incl. > int64, a mostly-valid setup prefix of "
              "collector lookup tables / locker + reward whitelists / auction-mapping flags, then 20-50 ops mixing locker create/deposit/withdraw/close/reward-calc "
              "(boundary amounts: 1, net balance, net balance +-1, 1e20), real vault create/draw/repay/close/deposit-and-draw messages that pay fees into the collector, "
              "plain fee inflows (coins + UpdateCollector), time advances 0 s..1 y, savings-rate changes (WasmUpdateCollectorLookupTable), ESM / breaker switches, "
              "GetAmountFromCollector / DecreaseNetFeeCollectedData / WasmMsgGetSurplusFund, and in 30 % of the cases a concentration on the real auction flows: "
              "generation-1 SurplusActivator / DebtActivator (start, restart, close with bids, close under ESM), bids, generation-2 CheckStatsForSurplusAndDebt, english bids, "
-             "CloseEnglishAuction for surplus and debt initiators, generation-2 vault liquidations settled by a full dutch bid); "
+             "CloseEnglishAuction for surplus and debt initiators, generation-2 liquidations settled by a full dutch bid: automatic (LiquidateIndividualVault), MsgLiquidateInternalKeeper with a non-zero keeper incentive (twice as often), MsgLiquidateExternalKeeper); "
              "non-trivial = at least 2 successful locker money ops and 1 successful collector in/outflow in the case; "
              "distinct by digest of the op sequence (ops + env values + result classes)",
         modelled=["reward amounts: the Dec returned by rewards.CalculationOfRewards is an env input recorded by the harness by calling the real function on the operands read before the op (its arithmetic is C18's subject)",
